@@ -665,3 +665,49 @@ Proof. vm_compute. reflexivity. Qed.
 
 Lemma script_soft_next_ok : trace_ok2 pmx (init pmx 5) script_soft_next.
 Proof. vm_compute. repeat split; try discriminate; try (intros x H; repeat (destruct H as [<-|H]; [reflexivity|]); destruct H). Qed.
+
+Lemma script_redo_ok : trace_ok2 pmx (init pmx 5) script_redo.
+Proof. vm_compute. repeat split; try discriminate; try (intros x H; repeat (destruct H as [<-|H]; [reflexivity|]); destruct H). Qed.
+
+(* ... and the delivered votes of script_redo are indeed not threshold-consistent *)
+Definition thx (s : N) (snd : N) (v : value) : thresh :=
+  mkTh TNext 5 0 s v (mkUB 5 0 s v [mkVote snd 5 0 s v 10 0] []).
+
+Lemma thx_good s snd v D :
+  In (mkVote snd 5 0 s v 10 0) D -> reaches pmx s 10 = true -> tkind_of_step s = TNext ->
+  good_thresh pmx D (thx s snd v).
+Proof.
+  intros HD HR HT. unfold thx, good_thresh. cbn. repeat split; auto.
+  - destruct H as [<-|[]]. exact HD.
+  - destruct H as [<-|[]]. reflexivity.
+  - destruct H as [<-|[]]. reflexivity.
+  - destruct H.
+  - destruct H.
+  - cbn. constructor; [intros []|constructor].
+Qed.
+
+Lemma script_redo_inconsistent : ~ thresholds_consistent pmx (delivered script_redo).
+Proof.
+  intros H.
+  assert (E : vx1 = vx2).
+  { apply (H (thx 3 1 vx1) (thx 253 2 vx2)); try reflexivity.
+    - apply thx_good; [cbn; auto|reflexivity|reflexivity].
+    - apply thx_good; [cbn; auto|reflexivity|reflexivity]. }
+  discriminate E.
+Qed.
+
+Lemma redo_needs_consistency :
+  params_pos pmx /\ trace_ok2 pmx (init pmx 5) script_redo /\
+  In (AAttest 5 1 s_redo vx1) (all_acts pmx (init pmx 5) script_redo) /\
+  In (AAttest 5 1 s_redo vx2) (all_acts pmx (init pmx 5) script_redo) /\ vx1 <> vx2 /\
+  ~ thresholds_consistent pmx (delivered script_redo).
+Proof.
+  split; [exact pmx_pos|]. split; [exact script_redo_ok|].
+  assert (F : forall a, In a (filter (fun a => match a with AAttest _ _ _ _ => true | _ => false end)
+                                     (all_acts pmx (init pmx 5) script_redo)) ->
+                        In a (all_acts pmx (init pmx 5) script_redo)).
+  { intros a Ha. apply filter_In in Ha. exact (proj1 Ha). }
+  rewrite script_redo_acts in F.
+  split; [apply F; left; reflexivity|]. split; [apply F; right; left; reflexivity|].
+  split; [discriminate|exact script_redo_inconsistent].
+Qed.
